@@ -416,6 +416,16 @@ def s4(chk: Check, proj: Project, w) -> None:
         chk.ob("S4", f"dependencies:cached_script_view:{tg[1].name}-after-404-exits", dm.loc(c), ok,
                f"{tg[1].name}() (which can raise {norm(raises[0].exc.func) if isinstance(raises[0].exc, ast.Call) else '?'}) runs only after both lookups succeeded" if ok else
                f"{tg[1].name}() can raise on the request's script kind and is called before the 404 exits: an unknown kind for a known component answers 500")
+    # builtins that VALIDATE their argument raise on crafted request values just like in-package callees do
+    RAISING = {"int": "ValueError", "float": "ValueError", "bytes.fromhex": "ValueError", "bytearray.fromhex": "ValueError", "uuid.UUID": "ValueError", "UUID": "ValueError", "base64.b64decode": "binascii.Error", "json.loads": "JSONDecodeError"}
+    vps = set(params(f)[1:])
+    for c in calls(f):
+        nm_ = dotted(c.func) or norm(c.func)
+        if nm_ in RAISING and any(isinstance(x, ast.Name) and x.id in vps for a_ in c.args for x in ast.walk(a_)):
+            in_try = any(isinstance(a_, ast.Try) and any(c is y for st_ in a_.body for y in ast.walk(st_)) and a_.handlers for a_ in ancestors(c))
+            chk.ob("S4", f"dependencies:cached_script_view:{short(c, 40)}-cannot-raise-on-request-data", dm.loc(c), in_try,
+                   f"`{short(c, 40)}` is inside a try with a handler" if in_try else
+                   f"`{short(c, 40)}` parses a value taken from the URL and raises {RAISING[nm_]} when it is malformed: `GET /components/cache/<hash>.zzzzzz.js` answers 500 instead of 404")
     # table agreement
     okc, table = proj.try_fold(dm, dm.global_value("_CONTENT_TYPES"))
     kinds = set(table) if okc and isinstance(table, dict) else set()
@@ -466,6 +476,16 @@ def s5(chk: Check, proj: Project, w, rule: str = "S5") -> None:
                     ok = f"is_nonempty_str({a})" in norm(t)
                     chk.ob(rule, f"dependencies:{fn}:{short(t, 60)}", dm.loc(st), ok, f"decision on `{a}` uses is_nonempty_str" if ok else f"`{short(t)}` decides on `{a}` by plain truthiness while the other side uses is_nonempty_str: a whitespace-only script is announced but never cached (404), or cached but never announced")
     chk.floor(rule, n, 8)
+    # a test that names a kind asks about THAT kind's attribute
+    pf2 = dm.func("_prepare_tags_and_urls")
+    for st in [x for x in ast.walk(pf2) if isinstance(x, ast.If)]:
+        kinds_ = {c_.comparators[0].value for c_ in ast.walk(st.test) if isinstance(c_, ast.Compare) and isinstance(c_.ops[0], ast.Eq) and isinstance(c_.comparators[0], ast.Constant) and c_.comparators[0].value in ("js", "css") and "type" in norm(c_.left)}
+        attrs_ = {x.attr for x in ast.walk(st.test) if isinstance(x, ast.Attribute) and x.attr in ("js", "css") and isinstance(x.value, ast.Name)}
+        if len(kinds_) == 1 and attrs_:
+            ok = attrs_ == kinds_
+            chk.ob(rule, f"dependencies:_prepare_tags_and_urls:{short(st.test, 60)}:kind-matches-attribute", dm.loc(st), ok,
+                   f"the `{next(iter(kinds_))}` branch tests `.{next(iter(kinds_))}`" if ok else
+                   f"`if {short(st.test)}` decides about the `{next(iter(kinds_))}` script by looking at `.{next(iter(attrs_))}`: in fragment mode a CSS-only component's stylesheet URL is never declared to the loader, and a JS-only component gets a bogus .css URL")
     # every OTHER use of the predicate in this module asks the same thing: the class's script as attribute lookup sees it
     # (inheritance-aware), never the class's own media record
     for mm, q, fn in proj.all_funcs():
